@@ -304,11 +304,11 @@ def gen28(rng, tier):
         for nm in rng.sample(HOSTPOOL28, rng.randint(0, 6)):
             uid += 1
             pre.append({'d': 'C', 'p': nm, 'k': 'd' if nm.endswith('dir') or nm.endswith('DIR') else 'f', 'uid': uid})
-    sub = rng.choice(['', '', 'SUB'])
+    sub = rng.choice(['', '', 'SUB', 'SRC.V2'])
     if sub:
         for p in pre:
-            p['p'] = 'SUB/' + p['p']
-        pre.insert(0, {'d': 'C', 'p': 'SUB', 'k': 'd'})
+            p['p'] = sub + '/' + p['p']
+        pre.insert(0, {'d': 'C', 'p': sub, 'k': 'd'})
     cfg = {'mode': 28, 'cwdC': sub, 'cwdD': '', 'current': 'C', 'at': False, 'pre': pre, 'arm': arm, 'session': {}}
     host_rate = 0 if arm == 'clean' else rng.choice([0, 0.08, 0.15])
     kinds = ['open_o', 'open_o', 'save', 'save', 'save_a', 'open_a', 'open_r', 'bsave',
@@ -343,6 +343,9 @@ def gen28(rng, tier):
             op['q'] = pick() if rng.random() < 0.5 else recase(rng, rand_legal(rng))
         if k == 'files':
             op['p'] = None
+        elif k != 'files_mask' and rng.random() < 0.2:
+            # spell the current directory out: '.', an absolute path, or down from the parent
+            op['pfx'] = rng.choice(['.\\'] + (['\\' + sub + '\\', '..\\' + sub + '\\'] if sub else ['\\']))
         ops.append(op)
     return {'machine': NAME, 'prop': 'C28', 'cfg': cfg, 'ops': ops}
 
@@ -751,6 +754,11 @@ def do_statement(env, op):
     if kind in ('save', 'save_a', 'save_p'):
         env.X(b'NEW')
         env.X(b'10 PRINT %d' % op['uid'])
+    # C28: the same directory reached through a path (the name rules must not depend on how the directory is spelled)
+    pfx = op.get('pfx')
+    if pfx:
+        p = pfx + p if p is not None else p
+        q = pfx + q if q is not None else q
     for var, s in ((b'P$', p), (b'Q$', q)):
         if s is None:
             exprs.append(None)
@@ -945,7 +953,8 @@ class Judge28(object):
                 and after[created[0]][0] == 'f'):
             variant = aswap(N)
             if variant != N:
-                r2, what2, x2 = do_statement(env, {'k': 'load' if kind == 'save_a' else 'open_i', 'p': variant, 'uid': op['uid']})
+                r2, what2, x2 = do_statement(env, {'k': 'load' if kind == 'save_a' else 'open_i', 'p': variant, 'uid': op['uid'],
+                                                   'pfx': op.get('pfx')})
                 want = uids_in(after[created[0]][1])
                 got = uids_in(env.mask(r2.out) + (env.mask(x2.out) if x2 is not None else b''))
                 run.probe('recase-readback')
